@@ -11,12 +11,16 @@ val snd : ('a1 * 'a2) -> 'a2
 
 val length : 'a1 list -> nat
 
+val app : 'a1 list -> 'a1 list -> 'a1 list
+
 type comparison =
 | Eq
 | Lt
 | Gt
 
 val compOpp : comparison -> comparison
+
+val add : nat -> nat -> nat
 
 module Nat :
  sig
@@ -31,11 +35,15 @@ module Nat :
 
 val nth_error : 'a1 list -> nat -> 'a1 option
 
+val rev : 'a1 list -> 'a1 list
+
 val map : ('a1 -> 'a2) -> 'a1 list -> 'a2 list
 
 val existsb : ('a1 -> bool) -> 'a1 list -> bool
 
 val forallb : ('a1 -> bool) -> 'a1 list -> bool
+
+val filter : ('a1 -> bool) -> 'a1 list -> 'a1 list
 
 val firstn : nat -> 'a1 list -> 'a1 list
 
@@ -99,6 +107,8 @@ module Coq_Pos :
   val compare : positive -> positive -> comparison
 
   val eqb : positive -> positive -> bool
+
+  val of_succ_nat : nat -> positive
  end
 
 module N :
@@ -115,9 +125,19 @@ module N :
 
   val compare : n -> n -> comparison
 
+  val eqb : n -> n -> bool
+
   val leb : n -> n -> bool
 
+  val ltb : n -> n -> bool
+
   val pos_div_eucl : positive -> n -> n * n
+
+  val div_eucl : n -> n -> n * n
+
+  val modulo : n -> n -> n
+
+  val of_nat : nat -> n
  end
 
 module Z :
@@ -187,7 +207,11 @@ val bcompare : bytes -> bytes -> comparison
 
 val bltb : bytes -> bytes -> bool
 
+val bleb : bytes -> bytes -> bool
+
 val beqb : bytes -> bytes -> bool
+
+val has_prefix : bytes -> bytes -> bool
 
 val bitlen : z -> z
 
@@ -356,3 +380,164 @@ val is_any_gte : coins -> coins -> bool
 val coins_is_zero : coins -> bool
 
 val coins_equal : coins -> coins -> bool option
+
+type 'v amap = (bytes * 'v) list
+
+val aget : 'a1 amap -> bytes -> 'a1 option
+
+val aset : 'a1 amap -> bytes -> 'a1 -> 'a1 amap
+
+val adel : 'a1 amap -> bytes -> 'a1 amap
+
+type kv = bytes amap
+
+val in_domain : bytes -> bytes -> bytes option -> bool
+
+val dir : bool -> 'a1 list -> 'a1 list
+
+val kv_range : 'a1 amap -> bytes -> bytes option -> bool -> (bytes * 'a1) list
+
+val prefix_end_rev : bytes -> bytes option
+
+val prefix_end_bytes : bytes -> bytes option
+
+val inclusive_end_bytes : bytes -> bytes
+
+val max_u64 : n
+
+type gascfg = { g_has : n; g_delete : n; g_read_flat : n; g_read_byte : 
+                n; g_write_flat : n; g_write_byte : n; g_iter_flat : 
+                n }
+
+type pkind =
+| POutOfGas
+| PGasOverflow
+| PInvalidIter
+| POther
+
+type 'a res =
+| Ok of 'a
+| Panic of pkind
+
+type tline = (n * bytes) * bytes
+
+type world = { w_limit : n option; w_consumed : n; w_trace : tline list;
+               w_cfg : gascfg }
+
+val set_consumed : world -> n -> world
+
+val log : world -> tline -> world
+
+val consume : n -> world -> unit res * world
+
+val mul64 : n -> n -> n
+
+val blen : bytes -> n
+
+val olen : bytes option -> n
+
+type centry = { ce_val : bytes option; ce_deleted : bool; ce_dirty : bool }
+
+type mem_item = bytes * bytes option
+
+type cstate = { c_cache : centry amap; c_unsorted : unit amap;
+                c_sorted : mem_item list }
+
+val c_empty : cstate
+
+val set_cache_value :
+  cstate -> bytes -> bytes option -> bool -> bool -> cstate
+
+val merge_dirty : mem_item list -> mem_item list -> mem_item list
+
+val cache_val : cstate -> bytes -> bytes option
+
+val dirty_items : cstate -> bytes -> bytes option -> cstate
+
+val mem_scan : bool -> bytes -> bytes option -> mem_item list -> mem_item list
+
+val mem_items : cstate -> bytes -> bytes option -> bool -> mem_item list
+
+val cmp : bool -> bytes -> bytes -> comparison
+
+type miter = { mi_par : (bytes * bytes) list; mi_cac : mem_item list;
+               mi_asc : bool }
+
+val mk_miter : (bytes * bytes) list -> mem_item list -> bool -> miter
+
+val skip_cache_deletes :
+  bool -> bytes option -> mem_item list -> mem_item list
+
+val skip_until : nat -> miter -> (miter * bool) option
+
+val m_current : miter -> (bytes * bytes option) option
+
+val m_next : miter -> miter
+
+val m_collect : nat -> miter -> (bytes * bytes) list option
+
+val merge_run :
+  (bytes * bytes) list -> mem_item list -> bool -> (bytes * bytes) list option
+
+type store =
+| Base of kv
+| Cache of cstate * store
+| Prefix of bytes * store
+| Gas of store
+| Trace of store
+
+type iter0 =
+| IList of (bytes * bytes) list
+| IPrefix of bytes * bool * iter0
+| IGas of iter0
+| ITrace of iter0
+
+val strip : bytes -> bytes -> bytes
+
+val bind :
+  ('a1 res * world) -> ('a1 -> world -> 'a2 res * world) -> 'a2 res * world
+
+val it_valid : iter0 -> bool
+
+val it_key : iter0 -> world -> bytes res * world
+
+val it_value : iter0 -> world -> bytes res * world
+
+val seek_gas : iter0 -> world -> unit res * world
+
+val it_next : iter0 -> world -> (unit res * iter0) * world
+
+val drain : iter0 -> (bytes * bytes) list
+
+val s_get : store -> bytes -> world -> (bytes option res * store) * world
+
+val s_has : store -> bytes -> world -> (bool res * store) * world
+
+val s_set : store -> bytes -> bytes -> world -> (unit res * store) * world
+
+val s_delete : store -> bytes -> world -> (unit res * store) * world
+
+val s_iter :
+  store -> bytes -> bytes option -> bool -> world -> (iter0
+  res * store) * world
+
+val write_entries :
+  centry amap -> store -> world -> (unit res * store) * world
+
+val c_write : store -> world -> (unit res * store) * world
+
+val at_depth :
+  nat -> (store -> world -> ('a1 res * store) * world) -> store -> world ->
+  ('a1 res * store) * world
+
+val it_collect :
+  nat -> iter0 -> world -> (bytes * bytes) list -> (bytes * bytes) list
+  res * world
+
+val it_size : iter0 -> nat
+
+val s_iter_all :
+  store -> bytes -> bytes option -> bool -> world -> ((bytes * bytes) list
+  res * store) * world
+
+val kv_gas_config : gascfg
